@@ -38,6 +38,8 @@ from itertools import chain, starmap
 from pathlib import Path
 from typing import Any, Optional
 
+Varied = object
+
 
 class Label:
     # a user class that merely LOOKS like a str (same method names): type-conditioned checks must not treat it as one
@@ -112,6 +114,8 @@ POOLS: dict[str, list[Any]] = {
     "bytes": [b"", b"a", b"ab"],
     "bytearray": [bytearray(b""), bytearray(b"ab")],
     "object": [None, 0, 1, True, False, 1.0, "a", [], (1,), NAN],
+    # the values the hand-written near misses mention (`Varied` is an alias of object in the preamble)
+    "Varied": [(1, 2), [1, 2], {1, 2}, (0, 0), 1, 1.0, 2, "k", b"k", "A", "a", "a:1", "a:2", None],
     "Any": [None, 0, 1, True, False, 1.0, "a", [], (1,)],
     "list[list[int]]": [[], [[1]], [[1, 2], [3]], [[], [1]]],
     "Optional[int]": [None, 0, 1],
@@ -510,14 +514,14 @@ def near_misses(params: list[tuple[str, str]], body: str, rng, k: int) -> list[s
 # swallow (bracket kind of a display, literal kind, letter case, a `:digits` run, an argument).  None is diagnosed today; a check
 # that starts to fire is judged like any other diagnostic (its rewrite is applied and executed).
 HAND_NEAR_MISSES: list[tuple[int, list[tuple[str, str]], str, dict[str, Any]]] = [
-    (108, [("p", "object"), ("q", "object")], "return p == (1, 2) or q == [1, 2]", {}),
-    (108, [("p", "object"), ("q", "object")], "return p == [1, 2] or q == {1, 2}", {}),
-    (124, [("p", "object"), ("q", "object")], "return p == [1, 2] and q == (1, 2)", {}),
-    (110, [("q", "object")], "return (1, 2) if [1, 2] else q", {}),
-    (108, [("p", "object"), ("q", "object")], "return p == 1 or q == 1.0", {}),
-    (108, [("p", "object"), ("q", "object")], 'return p == "k" or q == b"k"', {}),
-    (124, [("p", "object"), ("q", "object")], 'return p == "A" and q == "a"', {}),
-    (108, [("p", "object"), ("q", "object")], 'return p == "a:1" or q == "a:2"', {}),
+    (108, [("p", "Varied"), ("q", "Varied")], "return p == (1, 2) or q == [1, 2]", {}),
+    (108, [("p", "Varied"), ("q", "Varied")], "return p == [1, 2] or q == {1, 2}", {}),
+    (124, [("p", "Varied"), ("q", "Varied")], "return p == [1, 2] and q == (1, 2)", {}),
+    (110, [("q", "Varied")], "return (1, 2) if [1, 2] else q", {}),
+    (108, [("p", "Varied"), ("q", "Varied")], "return p == 1 or q == 1.0", {}),
+    (108, [("p", "Varied"), ("q", "Varied")], 'return p == "k" or q == b"k"', {}),
+    (124, [("p", "Varied"), ("q", "Varied")], 'return p == "A" and q == "a"', {}),
+    (108, [("p", "Varied"), ("q", "Varied")], 'return p == "a:1" or q == "a:2"', {}),
     (108, [("s", "str"), ("t", "str")], "return len(s) == 1 or len(t) == 2", {}),
     (124, [("p", "int"), ("q", "int")], "return -p == 1 and +p == q", {}),
     (110, [("p", "int"), ("q", "int")], "return p + 1 if p + 2 else q", {}),
